@@ -2102,7 +2102,7 @@ def run_e2e(case, H):
 
 # =================================================================================================== shards
 def shards(tier):
-    n_ok, n_nm = (150, 450) if tier == 'quick' else (6000, 18000)
+    n_ok, n_nm = (150, 450) if tier == 'quick' else (1500, 4500)
     out = []
     for name in sorted(_macros):
         out.append({'kind': 'rule', 'rule': name, 'n_ok': n_ok, 'n_nm': n_nm})
